@@ -373,10 +373,45 @@ def c02(ctx):
                         viol.add("success-with-wrong-output", {"fault": f"RLIMIT_FSIZE={limit}", "seed_variant": si, "existing_output": prior is not None,
                                                                "differing_bytes": sum(1 for a, b in zip(ob, big) if a != b) + abs(len(ob) - len(big))})
                 distinct.add(("fault", limit, si, prior is not None))
+    # chunks larger than one write(2) of the runtime takes (2 MiB), supplied by a seed file, by stdin and by the archive
+    M = 1 << 20
+    blocks = [bytes([97 + k]) * 5 + bytes((i * (k + 7)) % 253 for i in range(3 * M - 5)) for k in range(3)]
+    lsrc_b = blocks[0] + blocks[1] + blocks[2] + blocks[0] + b"end" * 1000
+    lsrc, larc = os.path.join(root, "large.bin"), os.path.join(root, "large.cba")
+    with open(lsrc, "wb") as f:
+        f.write(lsrc_b)
+    r = sh([bita, "compress", "--fixed-size", "3MiB", "--compression", "none", "-i", lsrc, larc])
+    if r.returncode != 0:
+        raise RuntimeError("compress failed: " + r.stderr.decode())
+    large_cases = 0
+    for name, seedb, via_stdin in (("seed-file-one-block", b"junk" * 1000 + blocks[1] + b"more junk", False),
+                                   ("stdin-seed-two-blocks", blocks[2] + blocks[0], True),
+                                   ("no-seed", None, False)):
+        d = os.path.join(root, "large-" + name)
+        os.makedirs(d)
+        out = os.path.join(d, "out.bin")
+        argv = [bita, "clone"]
+        stdin_data = None
+        if seedb is not None and via_stdin:
+            argv += ["--seed", "-"]
+            stdin_data = seedb
+        elif seedb is not None:
+            sp = os.path.join(d, "seed.bin")
+            with open(sp, "wb") as f:
+                f.write(seedb)
+            argv += ["--seed", sp]
+        r = sh(argv + [larc, out], stdin_data=stdin_data, timeout=300)
+        large_cases += 1
+        detail = {"case": "3 MiB chunks, " + name}
+        if r.returncode != 0:
+            viol.add("valid-clone-failed", dict(detail, stderr=r.stderr.decode()[-300:]))
+        elif open(out, "rb").read() != lsrc_b:
+            viol.add("success-with-wrong-output", detail)
+        distinct.add(("large", name))
     shutil.rmtree(root, ignore_errors=True)
-    cov = {"evaluations": len(cases) + fault_cases, "write_fault_cases": fault_cases, "distinct_nontrivial": len(distinct), "exhaustive": True, "samples": samples,
+    cov = {"evaluations": len(cases) + fault_cases + large_cases, "large_chunk_cases": large_cases, "write_fault_cases": fault_cases, "distinct_nontrivial": len(distinct), "exhaustive": True, "samples": samples,
            "stdin_seed_cases": sum(1 for c in cases if any(k == "-" for k, _ in c[2])),
-           "rule": "real binary, FixedSize(4) archive of a 22-byte source with a duplicate chunk, hash length 64 and 4: every seed of a 7-seed pool (related, unrelated, source itself, empty, shifted by a half word) as stdin seed and as file seed, every ordered pair of 5 seeds as (stdin,file), (file,stdin) and (file,file), one triple; oracle: exit 0 and output == source; plus seeded clones of a 16-chunk source under a file size limit at every chunk boundary (writes beyond it fail with EFBIG) x 3 seed variants x {new, existing output}: reported success implies output == source; non-trivial = distinct seed configurations that ran to the end"}
+           "rule": "real binary, FixedSize(4) archive of a 22-byte source with a duplicate chunk, hash length 64 and 4: every seed of a 7-seed pool (related, unrelated, source itself, empty, shifted by a half word) as stdin seed and as file seed, every ordered pair of 5 seeds as (stdin,file), (file,stdin) and (file,file), one triple; oracle: exit 0 and output == source; plus seeded clones of a 16-chunk source under a file size limit at every chunk boundary (writes beyond it fail with EFBIG) x 3 seed variants x {new, existing output}: reported success implies output == source; plus a source of 3 MiB chunks (more than one write(2) takes) cloned with a seed file, a stdin seed and no seed; non-trivial = distinct seed configurations that ran to the end"}
     return result(ctx["pid"], "exploration", cov, viol, t0, ["A5"])
 
 
@@ -672,6 +707,12 @@ def c12(ctx):
                              ("buzhash", ["--hash-chunking", "BuzHash", "--rolling-window-size", "8B", "--min-chunk-size", "16B", "--avg-chunk-size", "32B", "--max-chunk-size", "128B"])):
             for pname, pargs in (("none", ["--compression", "none"]), ("brotli", ["--compression", "brotli"])):
                 groups.append((sname, sb, cname, cargs, pname, pargs))
+    # several metadata entries (a map inside the dictionary: its encoding order must not vary)
+    md = []
+    for k in range(9):
+        md += ["--metadata-value", f"key-{k * 7 % 9}", f"value {k}"]
+    groups.append(("dup-words", words("ABACADAB") * 3, "fixed", ["--fixed-size", "64B"], "none+9-metadata-entries", ["--compression", "none"] + md))
+    groups.append(("pattern", pattern(5000, 9), "rollsum", groups[2][3], "brotli+9-metadata-entries", ["--compression", "brotli"] + md))
     reps = 6 if thorough else 3
     runs = 0
     samples = []
@@ -687,8 +728,10 @@ def c12(ctx):
         seen = {}
         n = 0
         for buffers in (1, 2, 3, 8, 64):
-            for inp in ("file", "stdin"):
-                for rep in range(reps):
+            for inp in ("file", "stdin", "fifo", "dev-stdin"):
+                for rep in range(reps if inp in ("file", "stdin") else 1):
+                    if inp in ("fifo", "dev-stdin") and buffers not in (2, 64):
+                        continue
                     arc = os.path.join(d, f"a-{buffers}-{inp}-{rep}.cba")
                     cmd = [bita, "compress", "--buffered-chunks", str(buffers)] + cargs + pargs
                     # runtime worker count: tokio honours TOKIO_WORKER_THREADS; rotate 1 / 2 / default
@@ -697,7 +740,42 @@ def c12(ctx):
                     # thorough: perturb syscall timing of every 6th run (delay each write(2) by 300 us)
                     if thorough and (rep + buffers) % 6 == 5:
                         cmd = ["strace", "-f", "-qq", "-o", "/dev/null", "-e", "trace=write", "-e", "inject=write:delay_enter=300"] + cmd
-                    r = sh(cmd + (["-i", src, arc] if inp == "file" else [arc]), stdin_data=None if inp == "file" else sb, extra_env=xenv)
+                    if inp == "fifo":
+                        # the input path is a named pipe: same bytes, not a regular file (no size to stat)
+                        fifo = os.path.join(d, f"in-{buffers}.fifo")
+                        os.mkfifo(fifo)
+                        e2 = env()
+                        if xenv:
+                            e2.update(xenv)
+                        p = subprocess.Popen(cmd + ["-i", fifo, arc], env=e2, stdin=subprocess.DEVNULL, stdout=subprocess.PIPE, stderr=subprocess.PIPE)
+
+                        def feed(fifo=fifo):
+                            try:
+                                with open(fifo, "wb") as w:   # blocks until the command opens the pipe
+                                    w.write(sb)
+                            except OSError:
+                                pass
+                        import threading
+                        th = threading.Thread(target=feed, daemon=True)
+                        th.start()
+                        try:
+                            so, se = p.communicate(timeout=60)
+                        except subprocess.TimeoutExpired:
+                            p.kill()
+                            so, se = p.communicate()
+                        # a command that never opened the pipe leaves the feeder blocked: release it
+                        try:
+                            fd = os.open(fifo, os.O_RDONLY | os.O_NONBLOCK)
+                            th.join(timeout=2)
+                            os.close(fd)
+                        except OSError:
+                            pass
+                        r = subprocess.CompletedProcess(cmd, p.returncode, so, se)
+                        os.remove(fifo)
+                    elif inp == "dev-stdin":
+                        r = sh(cmd + ["-i", "/dev/stdin", arc], stdin_data=sb, extra_env=xenv)
+                    else:
+                        r = sh(cmd + (["-i", src, arc] if inp == "file" else [arc]), stdin_data=None if inp == "file" else sb, extra_env=xenv)
                     n += 1
                     if r.returncode != 0:
                         viol.add("valid-compress-failed", {"source": sname, "chunker": cname, "compression": pname, "buffers": buffers, "input": inp, "stderr": r.stderr.decode()[-200:]})
